@@ -3,7 +3,7 @@
 From Coq Require Import List NArith ZArith Bool String.
 From GP Require Import Base.Val Base.Bytes Base.GoStrings Model.Negotiate Model.Handshake Model.Serve Model.Interop Model.Params
   Proofs.InteropP Proofs.ServeP Proofs.RoundTripP Proofs.AgreeP.
-From GP Require Model.Env Proofs.EnvP Proofs.ChainP.
+From GP Require Model.Env Proofs.EnvP Proofs.ChainP Model.LaunchOpts Proofs.LaunchOptsP.
 Import ListNotations.
 
 (* the outcome type of the model has no "hang", "panic" or "silently downgraded" constructor: every
@@ -166,3 +166,30 @@ Example C14_nonvacuous :
   interop {| h_allow_net := true; h_allow_grpc := true; h_tls := HStatic; h_mux := false; h_launch := LReattach |}
           {| p_wire := WNet; p_tls := PNone; p_mux := MuxNew |} = FirstUseErr.
 Proof. repeat split; reflexivity. Qed.
+
+(* ---- option conflicts surface at start: the exclusivity checks in front of every launch or attach.  The shape of
+   those checks is read from client.go on every run: *)
+Lemma facts_launch_option_checks : LaunchOptsP.shape gen_lo_params.
+Proof. repeat split; reflexivity. Qed.
+
+(* over all 32 combinations of Cmd / Reattach / RunnerFunc / SecureConfig / GRPCBrokerMultiplex: Start gets past its
+   option checks exactly when one launch method is named and no Reattach-specific conflict is present *)
+Theorem C14_option_conflicts_rejected : forall c,
+  LaunchOpts.option_check gen_lo_params c = 0%Z <-> LaunchOpts.unambiguous c = true.
+Proof. intros c. exact (LaunchOptsP.option_check_sound gen_lo_params c facts_launch_option_checks). Qed.
+Print Assumptions C14_option_conflicts_rejected.
+
+(* and then the method used is the one that was named: no option the host set is silently dropped *)
+Theorem C14_named_method_is_used : forall c, LaunchOpts.option_check gen_lo_params c = 0%Z ->
+  match LaunchOpts.method_used c with
+  | LaunchOpts.MReattach => LaunchOpts.l_reattach c = true /\ LaunchOpts.l_cmd c = false /\ LaunchOpts.l_runner c = false
+  | LaunchOpts.MRunner => LaunchOpts.l_runner c = true /\ LaunchOpts.l_cmd c = false /\ LaunchOpts.l_reattach c = false
+  | LaunchOpts.MCmd => LaunchOpts.l_cmd c = true /\ LaunchOpts.l_runner c = false /\ LaunchOpts.l_reattach c = false
+  end.
+Proof. intros c. exact (LaunchOptsP.passed_means_named_method gen_lo_params c facts_launch_option_checks). Qed.
+
+(* a validation organised around Reattach alone lets Cmd + RunnerFunc through and drops the command *)
+Theorem C14_refuted_reattach_only_validation :
+  exists c, LaunchOptsP.reattach_only_check c = 0%Z /\ LaunchOpts.unambiguous c = false /\
+            LaunchOpts.method_used c = LaunchOpts.MRunner /\ LaunchOpts.l_cmd c = true.
+Proof. exact LaunchOptsP.reattach_only_check_unsound. Qed.
